@@ -4,11 +4,13 @@ import (
 	"bufio"
 	"context"
 	"encoding/json"
+	"fmt"
 	"math/rand"
 	"os"
 	"runtime"
 	"strconv"
 	"strings"
+	"sync/atomic"
 	"testing"
 	"testing/synctest"
 	"time"
@@ -164,6 +166,28 @@ func runCase(t *testing.T, c *Case, sch scheduler, maxMoves int, drain bool, emi
 					mv.O = "val"
 					mv.V = v
 				}
+			case "park":
+				// the consumer parks in a blocking receive on output k and takes whatever comes until the channel
+				// closes (at most 200 values: a select with the send and ctx.Done() both ready picks the send 200
+				// times in a row with probability 2^-200); only used after a cancel, which guarantees the close
+				if outs[in.k].wait == nil || !st.cancelled {
+					return
+				}
+				for n := 0; n < 200 && !st.closedOut[in.k]; n++ {
+					v, closed := outs[in.k].wait()
+					pm := Move{M: "recv", K: in.k}
+					if closed {
+						pm.O = "closed"
+						st.closedOut[in.k] = true
+					} else {
+						pm.O = "val"
+						pm.V = v
+					}
+					st.nmoves++
+					c.Moves = append(c.Moves, pm)
+				}
+				synctest.Wait()
+				return
 			case "cancel":
 				cancel()
 				st.cancelled = true
@@ -322,6 +346,7 @@ func TestHarness(t *testing.T) {
 	defer w.Flush()
 	enc := json.NewEncoder(w)
 
+	go watchdog(60 * time.Second)
 	var plans []plan
 	if rp := os.Getenv("VERIF_REPLAY"); rp != "" {
 		plans = replayPlans(rp)
@@ -336,9 +361,25 @@ func TestHarness(t *testing.T) {
 		// marker: if the process dies inside the case the runner knows which one
 		enc.Encode(map[string]any{"begin": idx, "plan": map[string]any{"stage": p.stage, "icaps": p.icaps, "inputs": p.inputs, "gen": p.gen}})
 		w.Flush()
+		caseStart.Store(time.Now().UnixNano())
 		runCase(t, c, p.sched, p.maxMoves, p.drain, func() {
 			enc.Encode(c)
 			w.Flush()
 		})
+		caseStart.Store(0)
+	}
+}
+
+// wall-clock watchdog (outside every synctest bubble): a library goroutine that spins keeps its bubble from ever
+// becoming idle, so the case would hang until the test timeout; it is reported as a crash of the case instead
+var caseStart atomic.Int64
+
+func watchdog(limit time.Duration) {
+	for {
+		time.Sleep(500 * time.Millisecond)
+		if t0 := caseStart.Load(); t0 != 0 && time.Since(time.Unix(0, t0)) > limit {
+			fmt.Fprintf(os.Stderr, "panic: watchdog: the case did not finish within %v of real time (a goroutine spins or never lets the bubble idle)\n", limit)
+			os.Exit(2)
+		}
 	}
 }
